@@ -87,7 +87,8 @@ var model = porcupine.Model{
 				return !O.OK, S
 			}
 			if O.OK {
-				return true, st{}
+				// Delete returns the removed route: it must be the version that was current
+				return O.Ver == S.Ver, st{}
 			}
 			return false, S
 		case "has":
@@ -331,8 +332,9 @@ func write(f *fox.Router, rc interface{ IntN(int) int }, c, ki int, gid int64, c
 			}
 		default:
 			I = in{Key: keys[ki], Op: "delete"}
-			_, err := f.Delete("GET", keys[ki])
+			rte, err := f.Delete("GET", keys[ki])
 			O.OK = err == nil
+			O.Ver = verOf(rte)
 			if err != nil && !errors.Is(err, fox.ErrRouteNotFound) {
 				panic(err)
 			}
@@ -371,8 +373,9 @@ func write(f *fox.Router, rc interface{ IntN(int) int }, c, ki int, gid int64, c
 					O.OK = err == nil
 				default:
 					I = in{Key: keys[k], Op: "delete"}
-					_, err := txn.Delete("GET", keys[k])
+					rte, err := txn.Delete("GET", keys[k])
 					O.OK = err == nil
+					O.Ver = verOf(rte)
 				}
 				evs = append(evs, event{client: c, in: I, out: O})
 				if rc.IntN(4) == 0 {
